@@ -159,9 +159,9 @@ impl<const N: u32> PxE1<{ N }> {
                     float *= 0.5;
                     exp += 1;
                 }
-                let frac_length = (N - 3) as isize - (reg as isize);
+                let frac_length = N as isize - 3 - (reg as isize);
                 if frac_length < 0 {
-                    if reg == N - 2 {
+                    if reg + 2 == N {
                         bit_n_plus_one = exp != 0;
                         exp = 0;
                     }
@@ -183,7 +183,7 @@ impl<const N: u32> PxE1<{ N }> {
                 }
 
                 u32_with_sign(
-                    if reg > (N - 2) {
+                    if reg + 2 > N {
                         if reg_s {
                             0x_7FFF_FFFF & Self::mask()
                         } else {
@@ -194,9 +194,9 @@ impl<const N: u32> PxE1<{ N }> {
 
                         let regime = if reg_s { ((1 << reg) - 1) << 1 } else { 1_u32 };
 
-                        let mut u_z = (regime << (30 - reg))
-                            + ((exp as u32) << (29 - reg))
-                            + (frac << (32 - N));
+                        // with a 30-bit regime no exponent bit is left (exp is 0 then)
+                        let exp_bits = if reg < 30 { (exp as u32) << (29 - reg) } else { 0 };
+                        let mut u_z = (regime << (30 - reg)) + exp_bits + (frac << (32 - N));
                         //minpos
                         if (u_z == 0) && (frac > 0) {
                             u_z = 0x1 << (32 - N);
@@ -229,9 +229,9 @@ impl<const N: u32> PxE1<{ N }> {
                 exp += 1;
             }
 
-            let frac_length = (N - 3) as isize - (reg as isize);
+            let frac_length = N as isize - 3 - (reg as isize);
             if frac_length < 0 {
-                if reg == N - 2 {
+                if reg + 2 == N {
                     bit_n_plus_one = exp != 0;
                     exp = 0;
                 }
@@ -254,7 +254,7 @@ impl<const N: u32> PxE1<{ N }> {
             }
 
             u32_with_sign(
-                if reg > (N - 2) {
+                if reg + 2 > N {
                     if reg_s {
                         0x_7FFF_FFFF & Self::mask()
                     } else {
@@ -265,8 +265,9 @@ impl<const N: u32> PxE1<{ N }> {
 
                     let regime = if reg_s { ((1 << reg) - 1) << 1 } else { 1_u32 };
 
-                    let mut u_z =
-                        (regime << (30 - reg)) + ((exp as u32) << (29 - reg)) + (frac << (32 - N));
+                    // with a 30-bit regime no exponent bit is left (exp is 0 then)
+                    let exp_bits = if reg < 30 { (exp as u32) << (29 - reg) } else { 0 };
+                    let mut u_z = (regime << (30 - reg)) + exp_bits + (frac << (32 - N));
                     //minpos
                     if (u_z == 0) && (frac > 0) {
                         u_z = 0x1 << (32 - N);
